@@ -190,6 +190,24 @@ pub fn run_rm(args: &[i128], cont: usize, rm: bool) -> Vec<i128> {
             for _ in 0..m { edges.push((p.next() as usize, p.next() as usize, p.next() as u64)); }
             let root = p.next();
             let mut g: BaseCausalGraph<'static> = CausaloidGraph::new_with_capacity(4);
+            // [rm] the removal list and a prefill count follow the root index: `nrem idx* prefill`
+            let mut removed: Vec<usize> = Vec::new();
+            if rm {
+                let nrem = p.next() as usize;
+                for _ in 0..nrem { removed.push(p.next() as usize); }
+                let prefill = p.next() as usize;
+                if prefill > 0 {
+                    // the SAME graph object first holds a bigger model whose causaloids are all active, and is then cleared
+                    for j in 0..(n + prefill) {
+                        let tmp = [0i128, 100 + j as i128, 900 + j as i128, 0, 0];
+                        let mut q = Parser { a: &tmp, p: 0, ctxs: [ctx1, ctx2] };
+                        let (c, _, _) = q.tree();
+                        let _ = c.verify_single_cause(&1.0);
+                        g.add_causaloid(c);
+                    }
+                    g.clear();
+                }
+            }
             let mut kids = Vec::new();
             for (i, (c, k, kd)) in nodes.into_iter().enumerate() {
                 let ix = if root >= 0 && i as i128 == root { g.add_root_causaloid(c) } else { g.add_causaloid(c) };
@@ -199,10 +217,7 @@ pub fn run_rm(args: &[i128], cont: usize, rm: bool) -> Vec<i128> {
             for (a, b, w) in edges {
                 if w == 0 { let _ = g.add_edge(a, b); } else { let _ = g.add_edg_with_weight(a, b, w); }
             }
-            if rm {
-                let nrem = p.next() as usize;
-                for _ in 0..nrem { let i = p.next() as usize; let _ = g.remove_causaloid(i); }
-            }
+            for i in removed { let _ = g.remove_causaloid(i); }
             let g: &'static BaseCausalGraph<'static> = Box::leak(Box::new(g));
             let shapes: Vec<Shape> = kids.into_iter().enumerate().filter(|(i, _)| g.contains_causaloid(*i))
                 .map(|(i, (k, kd))| mk_shape(g.get_causaloid(i).unwrap(), k, kd)).collect();
